@@ -4,7 +4,7 @@
 //! each listed j the number of second words with y >= j (a prefix: y decreases in v).  TraceRejection.tla compares with the table.
 use crate::rng::ScriptRng;
 use crate::util::*;
-use rand_distr::{Binomial, Distribution, Exp1, Hypergeometric, Poisson};
+use rand_distr::{Binomial, Distribution, Exp1, Gamma, Hypergeometric, Poisson, StandardNormal};
 use serde_json::{json, Value};
 use std::io::{BufRead, Write};
 
@@ -47,6 +47,37 @@ pub fn drive(args: &[String]) -> i32 {
             match res {
                 Ok(evs) => for mut e in evs { e["res"] = json!("Ok"); out.push(e.to_string()); },
                 Err(p) => out.push(json!({"op": "h2pe1", "case": id, "k": 0, "res": format!("Panic: {}", p), "out": -1, "accepted_at_zero": false, "T": [0]}).to_string()),
+            }
+            continue;
+        }
+        if c.get("kernel").and_then(|k| k.as_str()) == Some("mt") {
+            // Marsaglia-Tsang: normal word (layer 1 of the ziggurat, high bits by bisection so that StandardNormal returns the anchor x),
+            // then the uniform words accepting the proposal are a prefix
+            let shape: f64 = c["shape"].as_str().unwrap().parse().unwrap();
+            let xs: Vec<f64> = c["xs"].as_array().unwrap().iter().map(|x| x.as_str().unwrap().parse().unwrap()).collect();
+            for ft in ["f64", "f32"] {
+                let res = guarded(|| -> Vec<Value> {
+                    let g64 = Gamma::<f64>::new(shape, 1.0).expect("constructor"); let g32 = Gamma::<f32>::new(shape as f32, 1.0).expect("constructor");
+                    let mut r = ScriptRng::new(vec![0, 0], 0);
+                    let mut call = |w1: u64, w2: u64| -> (f64, u64) { r.prefix[0] = w1; r.prefix[1] = w2; r.pos = 0; r.state = 23 ^ w2; r.n32 = 0; r.n64 = 0; r.nbytes = 0;
+                        let o = if ft == "f64" { g64.sample(&mut r) } else { g32.sample(&mut r) as f64 }; (o, r.words()) };
+                    let mut evs = vec![];
+                    for (j, &xa) in xs.iter().enumerate() {
+                        let x_of = |hb: u128| -> (f64, u64) { let mut q = ScriptRng::new(vec![((hb as u64) << 12) | 1], 1); let v: f64 = StandardNormal.sample(&mut q); (v, q.words()) };
+                        let hb = first_true(0, (1u128 << 52) - 1, |h| x_of(h).0 >= xa);
+                        let (xv, xw) = x_of(hb);
+                        let w1 = ((hb as u64) << 12) | 1;
+                        let (o0, n0) = call(w1, 0);
+                        let t = first_true(0, ALL, |w| call(w1, w as u64).1 != 2);
+                        evs.push(json!({"op": "mt", "case": id, "j": j + 1, "ft": ft, "x_ok": xw == 1 && (xv - xa).abs() < 1e-12, "accepted_at_zero": n0 == 2,
+                                        "outq": l14((o0 * 1099511627776.0).floor().max(0.0) as u128), "T": l14(t), "show": [format!("{:e}", o0), format!("{:.12}", t as f64 / 18446744073709551616.0)]}));
+                    }
+                    evs
+                });
+                match res {
+                    Ok(evs) => for mut e in evs { e["res"] = json!("Ok"); out.push(e.to_string()); },
+                    Err(p) => out.push(json!({"op": "mt", "case": id, "j": 0, "ft": ft, "x_ok": false, "accepted_at_zero": false, "outq": [0], "T": [0], "res": format!("Panic: {}", p)}).to_string()),
+                }
             }
             continue;
         }
